@@ -61,6 +61,7 @@ SCHEMA = {
                            'alignedPairs': LIST(PAIR)},
     'AlignmentSegmentsWithResolvedConflicts': {'segments': LIST(SEG)},
     'MultipleAlignmentResultRowsMessage': {'messages': LIST(OBJ('AlignmentResultRowMessage'))},
+    'InitialAlignmentMessage': {'data': OBJ('InitialAlignment', 'EmptyInitialAlignment', 'CorrelationResult')},
     '_WorkflowCoordinator': {'peaksSelector': OBJ('PeaksSelector'), 'dispatcher': OBJ('Dispatcher'), 'aligner': OBJ('Aligner'), 'args': OBJ('Args'),
                              'primaryGenerator': OBJ('SequenceGenerator'), 'secondaryGenerator': OBJ('SequenceGenerator')},
     '_MultiPassWorkflowCoordinator': {'xmapReader': OBJ('XmapReader')},
